@@ -277,6 +277,109 @@ fn limit_events(out: &mut Out, rng: &mut Rng) {
     }
 }
 
+/// one recorded run of a program given as a DAG with its root arrow: inferred types pinned, random type-correct witnesses, a
+/// random input, executed on fresh and on dirty memory
+fn record_one(dag: &J, src: &Ty, tgt: &Ty, rng: &mut Rng, attempts: usize, env: &CoreEnv) -> Result<J, String> {
+    let n = dag.as_array().unwrap().len();
+    // pin only the root arrow (everything else is inferred), then finalize
+    let mut ty = vec![J::Null; n];
+    ty[n - 1] = json!([src.to_j(), tgt.to_j()]);
+    // pass 1: no witness values; learn every node's final arrow
+    let aux0 = json!(vec![json!(["none"]); n]);
+    let learned: Option<Vec<J>> = guarded(|| {
+        types::Context::with_context(|ctx| {
+            let (_, _, built) = build_typed(&ctx, Family::Core, &dag, &json!(ty), &aux0).ok()?;
+            Some(built.iter().map(|b| { let a = b.arrow().finalize().unwrap(); json!([ty_j(&a.source), ty_j(&a.target)]) }).collect())
+        })
+    }).ok().flatten();
+    let Some(full_ty) = learned else { return Ok(J::Null) };
+    // pass 2: the same program with every arrow pinned and type-correct random witness values
+    let mut auxv = vec![json!(["u"]); n];
+    for (i, nd) in dag.as_array().unwrap().iter().enumerate() {
+        if nd[0] == "witness" {
+            auxv[i] = Ty::from_final(&ty_of(&full_ty[i][1])).rand_val(rng);
+        }
+    }
+    let ty = full_ty;
+    let aux = json!(auxv);
+    let ev = guarded(|| {
+        types::Context::with_context(|ctx| {
+            let (redeem, _, _) = match build_typed(&ctx, Family::Core, &dag, &json!(ty), &aux) {
+                Ok(x) => x,
+                Err(_) => return J::Null,     // generated program does not type: not a case
+            };
+            let (sdag, sty, saux, map) = describe(&redeem);
+            if sdag.as_array().unwrap().len() > 70 || redeem.arrow().source.bit_width() + redeem.arrow().target.bit_width() + redeem.bounds().extra_cells > 6000 {
+                return J::Null;
+            }
+            let inp_tree = Ty::from_final(&redeem.arrow().source).rand_val(&mut Rng::new(attempts as u64));
+            let inp = val_of(&inp_tree, &redeem.arrow().source);
+            let a = execute(&redeem, &map, &inp, env, None, true);
+            let b = execute(&redeem, &map, &inp, env, Some(0xff), true);
+            let same = a["res"] == b["res"] && a.get("out") == b.get("out") && a.get("out_bits") == b.get("out_bits")
+                && a["visits"].as_array().unwrap().len() == b["visits"].as_array().unwrap().len();
+            let out_cz = if a["res"] == "ok" {
+                let v = val_of(&a["out"], &redeem.arrow().target);
+                val_cz(&v.as_ref(), &redeem.arrow().target)
+            } else { json!(["u"]) };
+            json!({"ev": "run", "dag": sdag, "ty": sty, "aux": saux,
+                   "inp": val_cz(&inp.as_ref(), &redeem.arrow().source),
+                   "res": a["res"], "out": out_cz, "out_ty_ok": a.get("out_ty_ok").cloned().unwrap_or(json!(true)),
+                   "visits": a["visits"], "bounds": a["bounds"], "io": a["io"], "hw": a["hw"], "cap": a.get("cap").cloned().unwrap_or(json!(0)),
+                   "same_with_dirty_memory": same, "msg": a.get("msg").cloned().unwrap_or(json!(""))})
+        })
+    });
+    ev
+}
+
+/// A type of exactly `w` bits: the product of the words of its binary digits, largest first (13 = 2^8 x (2^4 x 2)).
+pub fn ty_of_width(w: usize) -> Ty {
+    let parts: Vec<Ty> = (0..12).rev().filter(|k| w >> k & 1 == 1).map(Ty::word).collect();
+    let mut it = parts.into_iter().rev();
+    match it.next() { None => Ty::Unit, Some(last) => it.fold(last, |acc, p| Ty::prod(p, acc)) }
+}
+
+/// Copy sweep: rearrangements of A x B (x 2) for every pair of widths, so that `iden` under take / drop copies values of every
+/// width between read and write cursors at every pair of bit alignments (both byte-aligned with a width that is no multiple
+/// of eight included), directly, through an intermediate frame, and inside a case.
+fn copy_sweep(out: &mut Out, rng: &mut Rng, env: &CoreEnv, thorough: bool) -> usize {
+    let widths: Vec<usize> = if thorough { (0..=40).collect() } else { (0..=13).chain([15, 16, 17, 23, 24, 25]).collect() };
+    let mut k = 0;
+    let mut done = 0;
+    for &wa in &widths {
+        for &wb in &widths {
+            k += 1;
+            let (a, b) = (ty_of_width(wa), ty_of_width(wb));
+            let ab = Ty::prod(a.clone(), b.clone());
+            let ba = Ty::prod(b.clone(), a.clone());
+            // 1 iden  2 iden  3 take 1  4 drop 2  5 pair 4 3 = swap   (one iden object per type)
+            let swap = vec![json!(["iden", 0, 0]), json!(["iden", 0, 0]), json!(["take", 1, 0]), json!(["drop", 2, 0]), json!(["pair", 4, 3])];
+            let (dag, src, tgt) = match k % 4 {
+                0 => (json!(swap), ab.clone(), ba.clone()),
+                1 => {      // swap ; swap', through an intermediate frame
+                    let mut d = swap.clone();
+                    d.extend([json!(["iden", 0, 0]), json!(["iden", 0, 0]), json!(["take", 6, 0]), json!(["drop", 7, 0]), json!(["pair", 9, 8]), json!(["comp", 5, 10])]);
+                    (json!(d), ab.clone(), ab.clone())
+                }
+                2 => {      // (whole x A) x swap
+                    let mut d = swap.clone();
+                    d.extend([json!(["iden", 0, 0]), json!(["iden", 0, 0]), json!(["take", 7, 0]), json!(["pair", 6, 8]), json!(["pair", 9, 5])]);
+                    (json!(d), ab.clone(), Ty::prod(Ty::prod(ab.clone(), a.clone()), ba.clone()))
+                }
+                _ => (json!([]), Ty::Unit, Ty::Unit),
+            };
+            // the case program's two branches have different targets unless made equal: use (drop iden) in both instead
+            let (dag, tgt) = if k % 4 == 3 { (json!([["iden", 0, 0], ["drop", 1, 0], ["case", 2, 2]]), ab.clone()) } else { (dag, tgt) };
+            match record_one(&dag, &src, &tgt, rng, 1000 + k, env) {
+                Ok(J::Null) => {}
+                Ok(e) => { out.emit(&e); done += 1; }
+                Err(p) => { out.emit(&json!({"ev": "run", "res": "panic", "msg": p, "dag": dag})); done += 1; }
+            }
+        }
+    }
+    done
+}
+
 pub fn record(runs: usize, path: &str) {
     let mut rng = Rng::from_env(5);
     let mut out = Out::file(path);
@@ -285,6 +388,8 @@ pub fn record(runs: usize, path: &str) {
     // jets TLC can follow as oracle pairs: keep types moderate
     let jets: Vec<JetSig> = core.iter().filter(|j| j.src.size() <= 300 && j.tgt.size() <= 300).cloned().collect();
     let env = CoreEnv::new();
+    let swept = copy_sweep(&mut out, &mut rng, &env, runs > 1000);
+    eprintln!("copy sweep: {} runs", swept);
     let mut done = 0;
     let mut attempts = 0;
     while done < runs && attempts < runs * 20 {
@@ -299,55 +404,7 @@ pub fn record(runs: usize, path: &str) {
             let root = g.expr(&src, &tgt, 7);
             g.finish(root)
         };
-        let n = dag.as_array().unwrap().len();
-        // pin only the root arrow (everything else is inferred), then finalize
-        let mut ty = vec![J::Null; n];
-        ty[n - 1] = json!([src.to_j(), tgt.to_j()]);
-        // pass 1: no witness values; learn every node's final arrow
-        let aux0 = json!(vec![json!(["none"]); n]);
-        let learned: Option<Vec<J>> = guarded(|| {
-            types::Context::with_context(|ctx| {
-                let (_, _, built) = build_typed(&ctx, Family::Core, &dag, &json!(ty), &aux0).ok()?;
-                Some(built.iter().map(|b| { let a = b.arrow().finalize().unwrap(); json!([ty_j(&a.source), ty_j(&a.target)]) }).collect())
-            })
-        }).ok().flatten();
-        let Some(full_ty) = learned else { continue };
-        // pass 2: the same program with every arrow pinned and type-correct random witness values
-        let mut auxv = vec![json!(["u"]); n];
-        for (i, nd) in dag.as_array().unwrap().iter().enumerate() {
-            if nd[0] == "witness" {
-                auxv[i] = Ty::from_final(&ty_of(&full_ty[i][1])).rand_val(&mut rng);
-            }
-        }
-        let ty = full_ty;
-        let aux = json!(auxv);
-        let ev = guarded(|| {
-            types::Context::with_context(|ctx| {
-                let (redeem, _, _) = match build_typed(&ctx, Family::Core, &dag, &json!(ty), &aux) {
-                    Ok(x) => x,
-                    Err(_) => return J::Null,     // generated program does not type: not a case
-                };
-                let (sdag, sty, saux, map) = describe(&redeem);
-                if sdag.as_array().unwrap().len() > 70 || redeem.arrow().source.bit_width() + redeem.arrow().target.bit_width() + redeem.bounds().extra_cells > 6000 {
-                    return J::Null;
-                }
-                let inp_tree = Ty::from_final(&redeem.arrow().source).rand_val(&mut Rng::new(attempts as u64));
-                let inp = val_of(&inp_tree, &redeem.arrow().source);
-                let a = execute(&redeem, &map, &inp, &env, None, true);
-                let b = execute(&redeem, &map, &inp, &env, Some(0xff), true);
-                let same = a["res"] == b["res"] && a.get("out") == b.get("out") && a.get("out_bits") == b.get("out_bits")
-                    && a["visits"].as_array().unwrap().len() == b["visits"].as_array().unwrap().len();
-                let out_cz = if a["res"] == "ok" {
-                    let v = val_of(&a["out"], &redeem.arrow().target);
-                    val_cz(&v.as_ref(), &redeem.arrow().target)
-                } else { json!(["u"]) };
-                json!({"ev": "run", "dag": sdag, "ty": sty, "aux": saux,
-                       "inp": val_cz(&inp.as_ref(), &redeem.arrow().source),
-                       "res": a["res"], "out": out_cz, "out_ty_ok": a.get("out_ty_ok").cloned().unwrap_or(json!(true)),
-                       "visits": a["visits"], "bounds": a["bounds"], "io": a["io"], "hw": a["hw"], "cap": a.get("cap").cloned().unwrap_or(json!(0)),
-                       "same_with_dirty_memory": same, "msg": a.get("msg").cloned().unwrap_or(json!(""))})
-            })
-        });
+        let ev = record_one(&dag, &src, &tgt, &mut rng, attempts, &env);
         match ev {
             Ok(J::Null) => {}
             Ok(e) => { out.emit(&e); done += 1; }
